@@ -105,6 +105,15 @@ Theorem signature_blocks_are_readable :
     exists b, ref_bytes basis h i = Some b /\ lenZ b = block_len h i.
 Proof. exact sqroot_refs_readable. Qed.
 
+(** The blocks tile the basis: referencing every block of the generator's
+    signature once, in order, denotes exactly the basis — no byte of it is
+    missing from, or counted twice in, the layout both sides compute. *)
+Theorem all_block_references_denote_the_basis :
+  forall basis,
+    let h := sum_sizes_sqroot (lenZ basis) in
+    denote basis h (map (fun j => Ref (Z.of_nat j)) (seq 0 (Z.to_nat (h_count h)))) = Some basis.
+Proof. exact denote_all_refs. Qed.
+
 (** Non-vacuity: 1401 bytes give two full blocks of 700 and a remainder of 1;
     490000 bytes (sqrt = 700) give exactly 700 full blocks. *)
 Example tile_example :
@@ -140,3 +149,4 @@ Print Assumptions receiver_exact.
 Print Assumptions tag_table_exact.
 Print Assumptions signature_blocks_tile_the_basis.
 Print Assumptions signature_blocks_are_readable.
+Print Assumptions all_block_references_denote_the_basis.
